@@ -53,8 +53,8 @@ Inductive shape :=
 | SStr | SInt | SHash | SComment | SOther.
 
 Inductive site :=
-| SiteIncludeTail        (* generator.go GenerateInclude.sourceItem: list := expr.( *SexpPair) on the tail of a list *)
-| SiteMdefNilSym         (* latent: GenerateMultiDef leaves syms[i] nil; BindlistInstr.Execute dereferences it *)
+| SiteIncludeTail        (* generator.go GenerateInclude.sourceItem: the tail of a list that is no pair (now checked: unreachable) *)
+| SiteMdefNilSym         (* latent: a nil symbol in BindlistInstr (GenerateMultiDef now rejects the target: unreachable) *)
 | SiteIndex (f : form)   (* an index or slice expression of the form's generator past the length *)
 | SiteBeginLast | SiteAssignIndex | SiteAssignPanicOn | SiteGetLHSAssert | SiteMdefAssert
 | SiteQuotedTailAssert | SiteForControlNil | SiteSQIndex | SiteDefOpname.
@@ -202,7 +202,7 @@ Section Gen.
     bind m (gen_all g m (firstn (size - 1) l))
          (fun m' => idx l (size - 1) SiteBeginLast (fun e => gen g m' e)).
 
-  Definition sub (g : genv) : genv := mkGenv None (g_loops g).   (* NewSubGenerator: funcname "" *)
+  Definition sub (g : genv) : genv := mkGenv (g_fname g) (g_loops g).   (* NewSubGenerator copies funcname (and scopes) *)
 
   (* GenerateShortCircuit *)
   Fixpoint sc_loop (g0 : genv) (args : list shape) (n : nat) (m : list nat) : res :=
@@ -216,6 +216,10 @@ Section Gen.
     if size =? 0 then RErr else
     idx args (size - 1) (SiteIndex FAnd) (fun last =>
       bind m (gen g m last) (fun m' => sc_loop (sub g) args (size - 1) m')).
+
+  (* GenerateQuote: exactly one argument *)
+  Definition gen_quote (m : list nat) (args : list shape) : res :=
+    if negb (length args =? 1) then RErr else idx args 0 (SiteIndex FQuote) (fun _ => ok m).
 
   (* GenerateCond *)
   Fixpoint cond_loop (g : genv) (args : list shape) (n : nat) (m : list nat) : res :=
@@ -249,7 +253,7 @@ Section Gen.
         end in
       bind m first (fun m' => idx args 1 (SiteIndex f) (fun a1 => gen g m' a1))).
 
-  (* GenerateMultiDef: returns the latent flag when a target is a list that is no quoted symbol *)
+  (* GenerateMultiDef: a target that is a list must be (quote sym) *)
   Fixpoint mdef_targets (m : list nat) (args : list shape) (i nsym : nat) (latent : bool) : res :=
     match nsym with
     | 0 => ROk m latent
@@ -263,7 +267,7 @@ Section Gen.
                              | SSym _ => mdef_targets m args (S i) k latent
                              | _ => RCrash SiteMdefAssert
                              end
-              | (_, false) => mdef_targets m args (S i) k true      (* syms[i] stays nil *)
+              | (_, false) => RErr      (* "All mdef targets must be symbols" (was: syms[i] stayed nil) *)
               end
           | _ => RErr
           end)
@@ -436,12 +440,12 @@ Section Gen.
     | e :: r => bind m (rec MInc g m e) (fun m' => inc_all g m' r)
     end.
 
-  (* for expr != SexpNull { list := expr.( *SexpPair); sourceItem(list.Head); expr = list.Tail } *)
+  (* for expr != SexpNull { list, isPair := expr.( *SexpPair); ...; sourceItem(list.Head); expr = list.Tail } *)
   Fixpoint inc_walk (g : genv) (m : list nat) (e : shape) : res :=
     match e with
     | SNull => ok m
     | SPair h t => bind m (rec MInc g m h) (fun m' => inc_walk g m' t)
-    | _ => RCrash SiteIncludeTail
+    | _ => RErr                    (* list, isPair := expr.( *SexpPair); !isPair: "include: improper list" *)
     end.
 
   Definition inc_item (g : genv) (m : list nat) (item : shape) : res :=
@@ -560,7 +564,7 @@ Section Gen.
         match f with
         | FAnd | FOr => gen_short_circuit g m args
         | FCond => gen_cond g m args
-        | FQuote => ok m
+        | FQuote => gen_quote m args
         | FDef => gen_def FDef g m args
         | FSet => gen_def FSet g m args
         | FMdef => gen_mdef g m args
